@@ -30,6 +30,7 @@ fn streams(t: Tier) -> Vec<StreamDef> {
         st("msg_limit", t.n(96, 1600, 1, 32), false),
         st("hide_limit", t.n(4_000, 200_000, 20, 1_000), false),
         st("colossal_value", t.n(4, 8, 0, 0), true),
+        st("msg_many", t.n(2 * MANY.len() as u64, 4 * MANY.len() as u64, 0, MANY.len() as u64), true),
     ]
 }
 
@@ -149,8 +150,42 @@ fn check_msg(ctx: &mut Ctx, c: &SControl, expected_total: usize) {
     }
 }
 
+/// AVP counts for messages that are oversize through the *number* of their AVPs rather than
+/// through any single one: both sides of the 65 535-octet limit with minimal records, and counts
+/// at, around and beyond 2^16 (and 2^17, 2^18, 2^20) whose low bits are small.
+const MANY: [usize; 22] = [
+    10_920, 10_921, 10_922, 16_384, 32_767, 32_768, 32_769, 65_534, 65_535, 65_536, 65_537, 65_540, 65_568, 65_600, 65_601, 70_000, 131_071, 131_072, 131_073, 131_100, 262_144,
+    (1 << 20) + 3,
+];
+
 fn run(ctx: &mut Ctx) {
     match ctx.stream {
+        "msg_many" => {
+            let n = MANY[(ctx.idx as usize) % MANY.len()];
+            if n > 300_000 && ctx.build != "rel" {
+                return;
+            }
+            let variant = ctx.idx as usize / MANY.len();
+            let mut avps = Vec::with_capacity(n);
+            for i in 0..n {
+                // 6-octet records (Sequencing Required); every other variant mixes in 8- and 10-octet ones
+                let a = if variant % 2 == 1 && i % 7 == 3 {
+                    SAvp { attr: 10, hidden: false, body: SBody::U16(i as u16) }
+                } else if variant % 2 == 1 && i % 11 == 5 {
+                    SAvp { attr: 24, hidden: false, body: SBody::U32(i as u32) }
+                } else if i == 0 {
+                    SAvp { attr: 0, hidden: false, body: SBody::U16(1) }
+                } else {
+                    SAvp { attr: 39, hidden: false, body: SBody::Empty }
+                };
+                avps.push(a);
+            }
+            let total = 12 + avps.iter().map(|a| 6 + crate::spec::encode::payload(a).len()).sum::<usize>();
+            let c = SControl { length: total as u16, tunnel: 1, session: 2, ns: 3, nr: 4, avps };
+            ctx.rep.case(format!("many:{}:{}", n, variant).as_bytes(), true);
+            ctx.rep.bucket("msg_many.cases");
+            check_msg(ctx, &c, total);
+        }
         "avp_inrange" => {
             let a = val::any_avp(&mut ctx.rng, 1017);
             let ca = glue::avp_to_crate(&a).unwrap();
